@@ -279,6 +279,7 @@ func addStats(a *raftdrv.Stats, b raftdrv.Stats) {
 	a.Restarts += b.Restarts
 	a.SnapshotsInstalled += b.SnapshotsInstalled
 	a.ReadySnapWithCommitted += b.ReadySnapWithCommitted
+	a.StorageTailStates += b.StorageTailStates
 	a.Compactions += b.Compactions
 	a.ConfApplied += b.ConfApplied
 	a.LearnerSeen = a.LearnerSeen || b.LearnerSeen
